@@ -676,6 +676,14 @@ def scope_method(I, rec, name, args, kwargs):
             raise Raised(VExc(KeyError, [args[0]]))
         lo.has = z3.Store(lo.has, kt, z3.BoolVal(False))
         return NONE
+    if name == 'pop' and len(args) == 2:
+        # dict.pop(key, default) on the scope's own (local) layer
+        kt = models.strterm(args[0])
+        if I.decide(z3.Select(lo.has, kt), 'pop-key-in-local-layer'):
+            v = VAny(z3.Select(lo.val, kt))
+            lo.has = z3.Store(lo.has, kt, z3.BoolVal(False))
+            return v
+        return args[1]
     if name == '__getitem__':
         present, value = scope_visible(rec, args[0])
         if not I.decide(present, 'key-visible'):
@@ -1127,6 +1135,10 @@ def k3_prims():
         lo = I.ghost['econtext'].fields['local']
         return VBool(z3.Select(lo.has, models.strterm(a[0])))
 
+    def in_globals(I, a, k, n):
+        m = I.ghost['rcontext'].fields['m']
+        return VBool(z3.Select(m.has, models.strterm(a[0])))
+
     def global_now(I, a, k, n):
         m = I.ghost['rcontext'].fields['m']
         kt = models.strterm(a[0])
@@ -1179,7 +1191,7 @@ def k3_prims():
              scope_frame, template_pos, template_rpos, token_now, ext_count, ext_token, ext_last, ext_raised, ext_callee, ext_result, ext_arg, ext_out, ext_i18n, is_stream,
              is_rcontext, is_scope_copy, scope_arg_visible, attr_of, module_function, globals_visible,
              in_local, translate_arg, translate_result, normalize, i18n0,
-             holes_here, repeat_failed, repeat_kept, repeat_restored, loop_failed, iter_S0, iter_item, chain_len, i18n_now, i18n_at, global_now, handler_calls, handler_configured,
+             holes_here, repeat_failed, repeat_kept, repeat_restored, loop_failed, iter_S0, iter_item, chain_len, i18n_now, i18n_at, global_now, in_globals, handler_calls, handler_configured,
              translate_calls, quote_calls, errorinfo_of, token_at_eval, token_pos)}
 
 
